@@ -191,6 +191,8 @@ def _b_S(r):
          "lt": sympy.StrictLessThan, "le": sympy.LessThan, "eq": sympy.Equality, "ne": sympy.Unequality,
          "and": sympy.And, "or": sympy.Or, "xor": sympy.Xor, "not": sympy.Not}[op]
     e = f(*a)
+    if op in ("add", "mul", "pow") and not e.free_symbols:
+        raise OutOfDomain("symbolic expression collapsed to a number")
     for node in sympy.preorder_traversal(e):
         if not isinstance(node, SYMPY_OK()):
             raise OutOfDomain(f"sympy node {type(node).__name__} is outside the encoder's documented list")
@@ -1712,6 +1714,12 @@ def gate_type(paths=None):
     return st.sampled_from(paths or GATE_TYPES).map(lambda p: {"T": "CONST", "c": p})
 
 
+def _float_params(r):
+    """no numpy scalars / python ints as parameters: they leak into str(gate), which families use as default name."""
+    return '"T": "np"' not in _k(r) and not (r.get("T") == "EG" and isinstance(r.get("e"), int)) and not any(
+        isinstance(v, int) and not isinstance(v, bool) for v in r.get("kw", {}).values())
+
+
 def _no_sym(r):
     return '"T": "S"' not in _k(r)
 
@@ -1760,7 +1768,7 @@ def _b_gatefamily(r):
 kw("AnyUnitaryGateFamily", "cirq.AnyUnitaryGateFamily", ["AnyUnitaryGateFamily"], opt=dict(num_qubits=st.integers(1, 4)))
 kw("AnyIntegerPowerGateFamily", "cirq.AnyIntegerPowerGateFamily", ["AnyIntegerPowerGateFamily"], a=[gate_type(EIGEN_TYPES)])
 kw("ParallelGateFamily", "cirq.ParallelGateFamily", ["ParallelGateFamily"],
-   a=[st.one_of(gate_type(["cirq.XPowGate", "cirq.ZPowGate", "cirq.HPowGate", "cirq.PhasedXZGate", "cirq.MeasurementGate"]), gate1u().filter(_no_sym))],
+   a=[st.one_of(gate_type(["cirq.XPowGate", "cirq.ZPowGate", "cirq.HPowGate", "cirq.PhasedXZGate", "cirq.MeasurementGate"]), gate1u().filter(_no_sym).filter(_float_params))],
    opt=dict(name=st.sampled_from(["pfam", "ü"]), description=st.sampled_from(["d", ""]), max_parallel_allowed=st.integers(1, 5)))
 FSIM_TYPES = ["cirq.FSimGate", "cirq.PhasedFSimGate", "cirq.ISwapPowGate", "cirq.PhasedISwapPowGate", "cirq.CZPowGate", "cirq.IdentityGate"]
 
